@@ -195,6 +195,12 @@ def run(ctx):
             interp_out = interp_out.replace(MARK + "\n", ""); nat_out = nat_out.replace(MARK + "\n", "")
         if nat_out == interp_out and tw["run"]["rc"] == 0:
             stats["native-twin-agrees"] += 1
+        elif o["status"].startswith("fault:") and not built[pid].get("twin_only") and tw["run"]["rc"] not in (0, None) and \
+                render_out(o["out"]).startswith(nat_out) and not any(f[0] == pid for f in failing):
+            # the compiled twin stops at a run-time fault (a failed assertion inside a function body) exactly as its own
+            # prescription says; in a shadow block the same failure is counted and the test goes on (7.4): the evaluator's
+            # transcript was compared with the shadow-mode prescription above, there is nothing to compare across here
+            stats["twin-stops-at-fault-as-prescribed"] += 1
         else:
             # who left the prescription?  (native deviations are C01/C02 findings; the evaluator's are C03's)
             if o["status"] == "ok" and not built[pid].get("twin_only") and nat_out != render_out(o["out"]) and interp_out == render_out(o["out"]):
